@@ -146,8 +146,10 @@ func rulesC02(c *Ctx) {
 	R.Rule("R6", "fee limit argument of every pay call = stored FeeReserve or FeeReserve(AmountMsat/1000); backends forward maxFee", 4)
 	R.Rule("R7", "melt quote creation: Amount from the decoded invoice / MPP option, FeeReserve = FeeReserve(Amount) or 0", 3)
 	R.Rule("R8", "every input is counted once: the spent-table insert is a plain INSERT inside one transaction (a repeated secret fails the whole request)", 4)
+	R.Rule("R9", "a mint quote becomes PAID only behind stored state == UNPAID and a settled invoice of that quote (shared with C03.R2): a PENDING or ISSUED quote is never re-opened by a poll", 4)
 	c.vocabProblems("R1")
 	c.checkAtomicMultiRow("R8", roleMarkSpent)
+	c.ruleQuotePaidWrite("R9")
 
 	swap := c.op("R1", "/v1/swap")
 	mint := c.op("R2", "/v1/mint/{method}")
